@@ -120,6 +120,11 @@ pub fn judge_text(text: &str) -> (String, bool, Option<(String, String)>) {
 
 pub fn worker(case: &Value) -> Value {
     let texts = case["texts"].as_array().cloned().unwrap_or_default();
+    if case["classify"].as_bool() == Some(true) {
+        // seed selection: the class of every text (violations are left to the group that judges the same texts)
+        let classes: Vec<String> = texts.iter().map(|t| judge_text(t.as_str().unwrap_or("")).0).collect();
+        return json!({"n": 0, "nontrivial": 0, "hist": {}, "bad": [], "classes": classes});
+    }
     let mut hist: std::collections::BTreeMap<String, u64> = Default::default();
     let mut bads = vec![];
     let mut nontrivial = 0u64;
@@ -268,6 +273,19 @@ fn ladders(depths: &[usize]) -> Vec<String> {
         out.push(format!("PRINT {}1", "NOT ".repeat(d)));
         out.push(format!("PRINT {}1", "- NOT ".repeat(d / 2)));
         out.push(format!("X = {}1{}", "A(".repeat(d), ")".repeat(d)));
+        // a keyword or operator directly followed by a parenthesis, nested
+        out.push(format!("PRINT {}1{}", "NOT(".repeat(d), ")".repeat(d)));
+        out.push(format!("PRINT {}1{}", "-(".repeat(d), ")".repeat(d)));
+        out.push(format!("PRINT {}1{}", "1 AND(".repeat(d), ")".repeat(d)));
+        out.push(format!("PRINT {}1{}", "1 OR (".repeat(d), ")".repeat(d)));
+        out.push(format!("PRINT {}1{}", "1 MOD(".repeat(d), ")".repeat(d)));
+        out.push(format!("PRINT {}1{}", "1+(".repeat(d), ")".repeat(d)));
+        out.push(format!("PRINT {}1{}", "1 <(".repeat(d), ")".repeat(d)));
+        out.push(format!("PRINT {}\"a\"{}", "LEN(STR$(".repeat(d / 2), "))".repeat(d / 2)));
+        out.push(format!("WHILE{}1{}\nWEND", "(".repeat(d), ")".repeat(d)));
+        out.push(format!("IF{}1{}THEN PRINT 1", "(".repeat(d), ")".repeat(d)));
+        out.push(format!("{}PRINT 1", "IF X THEN ".repeat(d)));
+        out.push(format!("{}PRINT 1{}", "IF X THEN ".repeat(d / 2), " ELSE PRINT 2".repeat(d / 2)));
         let mut s = String::new();
         for _ in 0..d {
             s.push_str("IF X THEN\n");
@@ -361,27 +379,38 @@ pub fn drive(tier: &str) -> i32 {
     ));
     groups.push(("harvested texts as they are".into(), corpus.iter().map(|(_, t)| t.clone()).collect()));
 
-    // seeds for edits: accepted programs; quick = first program per source file + fixtures
+    // seeds for edits: accepted programs; quick = first program per source file + fixtures.
+    // The texts are classified in worker processes (a text that makes the parser hang or die must not
+    // stop the driver; it is reported by the group "harvested texts as they are").
     let mut seeds: Vec<(String, String)> = vec![];
     {
+        let candidates: Vec<&(String, String)> = corpus.iter().filter(|(_, text)| (6..=400).contains(&tokenize(text).len())).collect();
+        let mut accepted: HashSet<u64> = HashSet::new();
+        let chunks: Vec<Vec<String>> = candidates.chunks(10).map(|c| c.iter().map(|(_, t)| t.clone()).collect()).collect();
+        let cases: Vec<Value> = chunks.iter().map(|c| json!({"classify": true, "texts": c})).collect();
+        let mut cpool = Pool::new("C07");
+        cpool.timeout_ms = 10_000;
+        cpool.run(cases.into_iter(), |_, case, resp| {
+            if let crate::pool::Resp::Ok(v) = resp
+                && let (Some(ts), Some(cs)) = (case["texts"].as_array(), v["classes"].as_array())
+            {
+                for (t, c) in ts.iter().zip(cs.iter()) {
+                    if c.as_str() == Some("accepted") {
+                        accepted.insert(vcore::fnv1a(t.as_str().unwrap_or("")));
+                    }
+                }
+            }
+        });
         let mut seen_files: HashSet<String> = HashSet::new();
-        for (origin, text) in &corpus {
+        for (origin, text) in candidates {
             let file = origin.split('#').next().unwrap_or("").to_string();
-            let toks = tokenize(text).len();
-            if !(6..=400).contains(&toks) {
+            if quick && seen_files.contains(&file) {
                 continue;
             }
-            if quick {
-                if seen_files.contains(&file) {
-                    continue;
-                }
-                // accepted? judged in-process (cheap: one parse)
-                let (class, _, _) = judge_text(text);
-                if class != "accepted" {
-                    continue;
-                }
-                seen_files.insert(file);
+            if !accepted.contains(&vcore::fnv1a(text)) {
+                continue;
             }
+            seen_files.insert(file);
             seeds.push((origin.clone(), text.clone()));
         }
     }
@@ -429,10 +458,16 @@ pub fn drive(tier: &str) -> i32 {
         let chunk = if name.contains("ladder") { 1 } else { 40 };
         group_report.push(super::run_text_group(&mut run, &pool, &name, &unique, chunk, &json!({})));
     }
-    if run.hist.get("accepted").copied().unwrap_or(0) == 0
-        || run.hist.get("rejected-by-parser").copied().unwrap_or(0) == 0
-        || run.hist.get("rejected-by-linter").copied().unwrap_or(0) == 0
+    // non-vacuity (of a complete run without violations: hanging inputs use up the wall clock)
+    if !run.capped
+        && run.reporter.violation_count() == 0
+        && (run.hist.get("accepted").copied().unwrap_or(0) == 0
+            || run.hist.get("rejected-by-parser").copied().unwrap_or(0) == 0
+            || run.hist.get("rejected-by-linter").copied().unwrap_or(0) == 0)
     {
+        if std::env::var("VERIF_DEBUG").is_ok() {
+            eprintln!("debug: hist {:?} groups {:?} hangs {} crashes {}", run.hist, group_report, run.hangs, run.crashes);
+        }
         run.machinery.push("non-vacuity: the run did not see accepted, parser-rejected and linter-rejected inputs".into());
     }
     let mut ev = Evidence::new("exploration");
